@@ -800,7 +800,7 @@ func (p *g1JacExtended) addMixed(a *G1Affine) *g1JacExtended {
 // doubleNegMixed works the same as double, but negates q.Y.
 func (p *g1JacExtended) doubleNegMixed(q *G1Affine) *g1JacExtended {
 
-	var Z, U, V, W, S, XX, M, S2, L fp.Element
+	var U, V, W, S, XX, M, S2, L fp.Element
 
 	U.Double(&q.Y)
 	U.Neg(&U)
@@ -810,8 +810,7 @@ func (p *g1JacExtended) doubleNegMixed(q *G1Affine) *g1JacExtended {
 	XX.Square(&q.X)
 	M.Double(&XX).
 		Add(&M, &XX)
-	Z.Square(&p.ZZ)
-	M.Add(&M, &Z)
+	M.Add(&M, &aCurveCoeff) // q is affine: a·ZZ² = a
 	S2.Double(&S)
 	L.Mul(&W, &q.Y)
 
@@ -831,7 +830,7 @@ func (p *g1JacExtended) doubleNegMixed(q *G1Affine) *g1JacExtended {
 // http://www.hyperelliptic.org/EFD/g1p/auto-shortw-xyzz.html#doubling-dbl-2008-s-1
 func (p *g1JacExtended) doubleMixed(q *G1Affine) *g1JacExtended {
 
-	var Z, U, V, W, S, XX, M, S2, L fp.Element
+	var U, V, W, S, XX, M, S2, L fp.Element
 
 	U.Double(&q.Y)
 	V.Square(&U)
@@ -840,8 +839,7 @@ func (p *g1JacExtended) doubleMixed(q *G1Affine) *g1JacExtended {
 	XX.Square(&q.X)
 	M.Double(&XX).
 		Add(&M, &XX)
-	Z.Square(&p.ZZ)
-	M.Add(&M, &Z)
+	M.Add(&M, &aCurveCoeff) // q is affine: a·ZZ² = a
 	S2.Double(&S)
 	L.Mul(&W, &q.Y)
 
